@@ -152,6 +152,88 @@ class TrGen(TrAct):
         return out
 
 
+VULN_KEYS = {("EDef", "EXPLOIT_SERVICE"): ("{o}.svc", "Nat"), ("EDef", "EXPLOIT_OS"): ("{o}.os", "OptNat"),
+             ("EDef", "EXPLOIT_ACCESS"): ("{o}.access", "Nat"),
+             ("PDef", "PRIVESC_PROCESS"): ("{o}.proc", "OptNat"), ("PDef", "PRIVESC_OS"): ("{o}.os", "OptNat"),
+             ("PDef", "PRIVESC_ACCESS"): ("{o}.access", "Nat")}
+HOST_FLAGS = {"services": "svc", "os": "os", "processes": "proc"}
+
+
+class TrVuln(TrGen):
+    """`_host_is_vulnerable`, `_host_is_vulnerable_to_exploit`, `_host_is_vulnerable_to_privesc`: hosts are `HostDef`s
+    (name -> flag dictionaries are flag lists, names are indices), definitions are `ExploitDef` / `PrivescDef` records"""
+    def expr(self, e, env):
+        # exploit_def[u.KEY]
+        if isinstance(e, ast.Subscript) and isinstance(e.value, ast.Name) and env.get(e.value.id, ("", ""))[1:] in (("EDef",), ("PDef",)) \
+                and isinstance(e.slice, ast.Attribute) and ast.unparse(e.slice.value) == "u":
+            ty = env[e.value.id][1]
+            r = VULN_KEYS.get((ty, e.slice.attr)) or self.err(e, f"field {e.slice.attr} of a definition")
+            return r[0].format(o=e.value.id), r[1]
+        # host.services[name]
+        if isinstance(e, ast.Subscript) and isinstance(e.value, ast.Attribute) and isinstance(e.value.value, ast.Name) \
+                and env.get(e.value.value.id, ("", ""))[1:] == ("HostDef",) and e.value.attr in HOST_FLAGS:
+            k, kt = self.expr(e.slice, env)
+            fld = HOST_FLAGS[e.value.attr]
+            if kt == "Nat":
+                return f"({e.value.value.id}.{fld}.getD {k} false)", "Bool"
+            if kt == "OptNat":
+                # a name that is `None` is not a key of the dictionary (`KeyError`); the generator's own definitions name a
+                # process, and the OS lookup sits behind `e_os is None or`
+                return f"(PyRt.flagAt {e.value.value.id}.{fld} {k})", "Bool"
+            self.err(e, f"flag lookup with a key of type {kt}")
+        if isinstance(e, ast.Compare) and len(e.ops) == 1 and isinstance(e.ops[0], ast.Is) \
+                and isinstance(e.comparators[0], ast.Constant) and e.comparators[0].value is None:
+            o, t = self.expr(e.left, env)
+            if t == "OptNat":
+                return f"({o}).isNone", "Bool"
+        if isinstance(e, ast.Compare) and len(e.ops) == 1 and isinstance(e.ops[0], ast.GtE):
+            a, ta = self.expr(e.left, env)
+            b, tb = self.expr(e.comparators[0], env)
+            if ta == "Nat" and tb == "Nat":
+                return f"(decide ({a} ≥ {b}))", "Bool"
+        if isinstance(e, ast.Call) and isinstance(e.func, ast.Attribute) and e.func.attr == "values" and not e.args \
+                and ast.unparse(e.func.value) in ("self.exploits", "self.privescs"):
+            return ("exploits", "List:EDef") if e.func.value.attr == "exploits" else ("privescs", "List:PDef")
+        if isinstance(e, ast.Call) and isinstance(e.func, ast.Attribute) and isinstance(e.func.value, ast.Name) \
+                and e.func.value.id == "self" and e.func.attr in ("_host_is_vulnerable_to_exploit", "_host_is_vulnerable_to_privesc"):
+            a, ta = self.expr(e.args[0], env)
+            b, tb = self.expr(e.args[1], env)
+            return f"(ScenarioGenerator.{e.func.attr} {a} {b})", "Bool"
+        return super().expr(e, env)
+
+
+def translate_vulnerability(w, meth, out):
+    LEAN_TYPE.update({"HostDef": "HostDef", "EDef": "ExploitDef", "PDef": "PrivescDef", "OptNat": "Option Nat",
+                      "List:EDef": "List ExploitDef", "List:PDef": "List PrivescDef"})
+    for name, params, ctx in (
+            ("_host_is_vulnerable_to_exploit", [("host", "HostDef"), ("exploit_def", "EDef")], []),
+            ("_host_is_vulnerable_to_privesc", [("host", "HostDef"), ("privesc_def", "PDef")], []),
+            ("_host_is_vulnerable", [("host", "HostDef"), ("access_level", "Nat")], [("exploits", "List:EDef"), ("privescs", "List:PDef")])):
+        fn = Fn("ScenarioGenerator", name, f"ScenarioGenerator.{name}", params, "Bool", self_ty="Gen")
+        fn.kind, fn.prop, fn.classmethod = "function", False, False
+        doc = f"`nasim/scenarios/generator.py`: `ScenarioGenerator.{name}`"
+        ps = " ".join(f"({p} : {LEAN_TYPE[t]})" for p, t in ctx + params)
+        try:
+            node = meth.get(name)
+            if node is None:
+                raise Untranslatable(f"{name} not found")
+            got = [a.arg for a in node.args.args if a.arg != "self"]
+            if got != [p for p, _ in params]:
+                raise Untranslatable(f"{name}: parameters are {got}")
+            t = TrVuln(w, fn, node)
+            t.loop = None
+            env = {p: ("val", ty) for p, ty in ctx + params}
+            saved = w.lean_ret
+            w.lean_ret = lambda f_: "Bool"
+            try:
+                body = t.block(node.body, env, lambda e2, i2: t.err(node, "falls off the end"), 1)
+            finally:
+                w.lean_ret = saved
+            out.append(f"/-- {doc} -/\ndef {fn.lean} {ps} : Bool :=\n{body}")
+        except Untranslatable as e:
+            out.append(f"/-- UNTRANSLATABLE {doc} — {str(e).replace('-/', '- /')} -/\ndef {fn.lean} {ps} : Bool := default\n")
+
+
 def translate_generator():
     from nasim.scenarios import generator as gen_mod
     w = World()
@@ -206,4 +288,5 @@ def translate_generator():
     except Untranslatable as e:
         out.append(f"/-- UNTRANSLATABLE {doc} — {str(e).replace('-/', '- /')} -/\n"
                    f"def {fn.lean} (subnets : List Nat) : List (List Int) := default\n")
+    translate_vulnerability(w, meth, out)
     return "\n".join(out)
